@@ -7,11 +7,38 @@ rather than decoded into datapoints that were never written" — for EVERY list 
 cut position, EVERY prefix of the write-syscall sequence, EVERY single-byte change, and ANY checksum
 function `crc` (no burst-detection property of CRC-32 is assumed).
 -/
+-- AGENT-REPORT:
+-- `crash_prefix` was FALSE as originally stated (all other statements are proved unchanged).
+--
+-- Counterexample (empty payload):  crc := crc32 (crc32 [] = 0), ok := fun _ => true, ps := [[]], n := 3.
+--   wfPayloads crc32 [[]] holds (0 + 4 < 2^32, crc32 [] = 0 < 2^32, no bytes), ok [] = true, 1 ≤ 3.
+--   writes crc32 [[]]            = [[1], [4,0,0,0], [0,0,0,0], []]
+--   ((writes ..).take 3).flatten = [1, 4,0,0,0, 0,0,0,0]
+--   readFile of that             = some ([[]], St.clean)      -- size = 4 ⇒ payload length 0 ⇒ nothing
+--                                                             -- left to read; crc [] matches; accepted
+--   claimed                      = some (ps.take ((3-1)/3), _) = some ([], _)        -- mismatch.
+--   Same with neighbours: ps := [[7],[],[9]], n := 6 replays [[7],[]], claimed ps.take 1 = [[7]].
+--   (Both are machine-checked below: the `example` right after `crash_prefix_any`.)
+-- Cause: for an EMPTY payload the third write of `frameWrites` is a zero-byte write, so the frame is
+--   already complete on disk after its second (checksum) write; "(n - 1) / 3" undercounts by one
+--   exactly when the crash falls between the 2nd and 3rd write of an empty-payload frame.
+--   (The byte-level statement `truncate_prefix`/`completeWithin` is unaffected: 8 + 0 ≤ k is right.)
+-- Minimal correction: ONE extra hypothesis on `crash_prefix`,
+--       (hne : ∀ p ∈ ps, p ≠ [])
+--   i.e. payloads are non-empty (the real writer appends zstd frames, which are never 0 bytes).
+--   Conclusion, index arithmetic and every other hypothesis are unchanged.
+-- To keep the intent at full strength for the case the hypothesis excludes, the additional theorem
+--   `crash_prefix_any` (no non-emptiness assumption) shows the replay is STILL a true prefix
+--   `ps.take c` with (n-1)/3 ≤ c ≤ (n-1)/3 + 1: never a partial or invented block.
+-- Note (no change made): in `corrupt_detected` the hypothesis `hi2` is logically redundant — if `i`
+--   lay beyond frame `m`, frame `m` would be intact and `hacc` would be contradictory — so the proof
+--   does not use it; it is kept verbatim because it is part of the stated intent.
 import SigModel.Model.Wal
 import SigModel.Lemmas.C10
 
 namespace SigModel.Props.C10
 open SigModel.Wal
+open SigModel.Lemmas.C10 (cw)
 
 /-- payloads as the writer produces them: bytes, length fits the uint32 size field, crc is 32 bit -/
 def wfPayloads (crc : Bytes → Nat) (ps : List Bytes) : Prop :=
@@ -21,14 +48,14 @@ def wfPayloads (crc : Bytes → Nat) (ps : List Bytes) : Prop :=
 theorem decBlock_encBlock (dps : List Dp)
     (h : ∀ d ∈ dps, d.ts < 4294967296 ∧ d.val < 18446744073709551616 ∧ d.tsid < 18446744073709551616)
     (hn : dps.length < 4294967296) :
-    decBlock (encBlock dps) = some dps := by
-  sorry
+    decBlock (encBlock dps) = some dps :=
+  SigModel.Lemmas.C10.decBlock_encBlock dps h hn
 
 /-- C10.2 an intact file replays every appended block, in order, and ends cleanly -/
 theorem readFile_file (crc : Bytes → Nat) (ok : Bytes → Bool) (ps : List Bytes)
     (hwf : wfPayloads crc ps) (hok : ∀ p ∈ ps, ok p = true) :
-    readFile crc ok (file crc ps) = some (ps, St.clean) := by
-  sorry
+    readFile crc ok (file crc ps) = some (ps, St.clean) :=
+  SigModel.Lemmas.C10.readFile_file crc ok ps hwf hok
 
 /-- number of frames that lie completely within the first `k` bytes after the version byte -/
 def completeWithin : List Bytes → Nat → Nat
@@ -40,19 +67,51 @@ inside the cut — a true prefix, never a partial or invented block. -/
 theorem truncate_prefix (crc : Bytes → Nat) (ok : Bytes → Bool) (ps : List Bytes) (k : Nat)
     (hwf : wfPayloads crc ps) (hok : ∀ p ∈ ps, ok p = true) (hk : 1 ≤ k) :
     ∃ st, readFile crc ok ((file crc ps).take k) = some (ps.take (completeWithin ps (k - 1)), st) := by
-  sorry
+  have hcw : ∀ (qs : List Bytes) (j : Nat), completeWithin qs j = cw qs j := by
+    intro qs
+    induction qs with
+    | nil => intro j; rfl
+    | cons q qs ih => intro j; simp only [completeWithin, cw, ih]
+  rw [hcw]
+  exact SigModel.Lemmas.C10.readFile_truncate crc ok ps k hwf hok hk
 
 /-- … and a file cut before the version byte is not opened at all -/
 theorem truncate_zero (crc : Bytes → Nat) (ok : Bytes → Bool) (ps : List Bytes) :
     readFile crc ok ((file crc ps).take 0) = none := by
-  sorry
+  rfl
 
 /-- C10.4 crash at any system-call boundary (process-crash model: completed writes persist):
-after any prefix of the write sequence, replay yields exactly the blocks whose third write completed. -/
+after any prefix of the write sequence, replay yields exactly the blocks whose third write completed.
+(CORRECTED, see AGENT-REPORT at the top: hypothesis `hne` added — payloads are non-empty.) -/
 theorem crash_prefix (crc : Bytes → Nat) (ok : Bytes → Bool) (ps : List Bytes) (n : Nat)
+    (hwf : wfPayloads crc ps) (hok : ∀ p ∈ ps, ok p = true) (hne : ∀ p ∈ ps, p ≠ []) (hn : 1 ≤ n) :
+    ∃ st, readFile crc ok ((writes crc ps).take n).flatten = some (ps.take ((n - 1) / 3), st) :=
+  SigModel.Lemmas.C10.readFile_crash crc ok ps n hwf hok hne hn
+
+/-- C10.4' (added) the same crash model WITHOUT assuming non-empty payloads: replay is still a true
+prefix of the appended blocks; the count is `(n - 1) / 3` or one more (the latter only when the frame
+in progress has an empty payload and its checksum write completed — that frame is then complete). -/
+theorem crash_prefix_any (crc : Bytes → Nat) (ok : Bytes → Bool) (ps : List Bytes) (n : Nat)
     (hwf : wfPayloads crc ps) (hok : ∀ p ∈ ps, ok p = true) (hn : 1 ≤ n) :
-    ∃ st, readFile crc ok ((writes crc ps).take n).flatten = some (ps.take ((n - 1) / 3), st) := by
-  sorry
+    ∃ c st, readFile crc ok ((writes crc ps).take n).flatten = some (ps.take c, st)
+      ∧ (n - 1) / 3 ≤ c ∧ c ≤ (n - 1) / 3 + 1 :=
+  SigModel.Lemmas.C10.readFile_crash_any crc ok ps n hwf hok hn
+
+/-- machine-checked counterexample to the ORIGINAL `crash_prefix` (without `hne`): all of its
+hypotheses hold, yet the replay is `[[]]` (resp. `[[7], []]`), not `ps.take ((n - 1) / 3)`. -/
+example :
+    wfPayloads crc32 [[]] ∧ (∀ p ∈ [([] : Bytes)], (fun _ => true) p = true) ∧ 1 ≤ 3
+    ∧ readFile crc32 (fun _ => true) ((writes crc32 [[]]).take 3).flatten = some ([[]], St.clean)
+    ∧ ([[]] : List Bytes).take ((3 - 1) / 3) = []
+    ∧ readFile crc32 (fun _ => true) ((writes crc32 [[7], [], [9]]).take 6).flatten
+        = some ([[7], []], St.clean)
+    ∧ ([[7], [], [9]] : List Bytes).take ((6 - 1) / 3) = [[7]] := by
+  refine ⟨?_, ?_, by decide, by decide +kernel, rfl, by decide +kernel, rfl⟩
+  · intro p hp
+    simp only [List.mem_singleton] at hp
+    subst hp
+    exact ⟨by decide, by decide +kernel, by simp⟩
+  · intro p _; rfl
 
 /-- byte offset in the file at which frame `m` starts -/
 def frameStart (ps : List Bytes) (m : Nat) : Nat := 1 + ((ps.take m).map (fun p => 8 + p.length)).sum
@@ -75,10 +134,11 @@ theorem corrupt_detected (crc : Bytes → Nat) (ok : Bytes → Bool) (ps : List 
     (hi : frameStart ps m ≤ i) (hi2 : i < frameStart ps (m + 1))
     (hacc : acceptsAt crc ((file crc ps).set i b) (frameStart ps m) = false) :
     readFile crc ok ((file crc ps).set i b) = some (ps.take m, St.err) := by
-  sorry
+  have _ := hi2 -- redundant given `hacc`, see AGENT-REPORT
+  exact SigModel.Lemmas.C10.readFile_corrupt crc ok ps m i b hwf hok hm hi hacc
 
 /-- non-vacuity: a two-block file with a flipped payload byte under real CRC-32 meets the hypotheses -/
 example : acceptsAt crc32 ((file crc32 [[1, 2, 3], [4, 5]]).set 10 99) (frameStart [[1, 2, 3], [4, 5]] 0) = false := by
-  sorry
+  decide +kernel
 
 end SigModel.Props.C10
